@@ -59,13 +59,26 @@ ORDER = {ast.Lt: "lt", ast.LtE: "le", ast.Gt: "gt", ast.GtE: "ge"}
 
 # methods without side effect: name -> (runtime function, minimal / maximal number of arguments, defaults for the missing ones)
 METHODS = {"rstrip": ("PyU.rstrip", 0, 1, ["V.none"]), "partition": ("PyU.partition", 1, 1, []),
-           "get": ("PyU.dictGet", 1, 2, [None, "V.none"])}
-MUTATORS = {"append": 1, "read": (0, 1)}
+           "get": ("PyU.dictGet", 1, 2, [None, "V.none"]),
+           "split": ("PyU.split", 0, 1, ["V.none"]), "upper": ("PyU.upper", 0, 0, []), "lower": ("PyU.lower", 0, 0, []),
+           "startswith": ("PyU.startswith", 1, 1, [])}
+MUTATORS = {"append": 1, "read": (0, 1), "insert": 2}
+# `x.decode(enc, errors)` / `x.encode(enc, errors)` for literal arguments: (canonical codec, error handler) -> runtime function
+DECODE = {("utf-8", "strict"): "PyU.decodeUtf8", ("latin-1", "strict"): "PyU.decodeLatin1", ("latin-1", "ignore"): "PyU.decodeLatin1",
+          ("latin-1", "replace"): "PyU.decodeLatin1", ("ascii", "strict"): "PyU.decodeAscii", ("ascii", "ignore"): "PyU.decodeAsciiIgnore"}
+ENCODE = {("utf-8", "strict"): "PyU.encodeUtf8", ("latin-1", "strict"): "PyU.encodeLatin1", ("ascii", "strict"): "PyU.encodeAscii"}
+CODECS = {"utf-8": "utf-8", "utf8": "utf-8", "latin-1": "latin-1", "latin1": "latin-1", "iso-8859-1": "latin-1", "ascii": "ascii",
+          "us-ascii": "ascii"}
+ISINSTANCE = {"int": "PyU.Ty.int", "bool": "PyU.Ty.bool", "bytes": "PyU.Ty.bytes", "str": "PyU.Ty.str", "list": "PyU.Ty.list",
+              "tuple": "PyU.Ty.tuple", "dict": "PyU.Ty.dict"}
+CALLS = "%calls"     # the hidden variable that counts the calls of a registered `stream` function (Lean name `t0`)
 
 
 def lname(n: str) -> str:
     if n == "_":
         return "u_"
+    if n == CALLS:
+        return "t0"
     if re.fullmatch(r"t\d+", n) or n.endswith("_") and n[:-1] in LEAN_RESERVED:
         raise Unsupported(f"variable name {n} clashes with the translator's own names")
     return n + "_" if n in LEAN_RESERVED else n
@@ -115,10 +128,36 @@ def proj(k: int, n: int) -> str:
 
 
 class Sig:
-    def __init__(self, name, params, fuel):
+    def __init__(self, name, params, fuel, externs=(), asserts=False):
         self.name = name        # Lean name
         self.params = params    # [(python name, default term or None)]
         self.fuel = fuel        # takes a leading `fuel : Nat` parameter
+        self.externs = list(externs)   # names of the external functions it is parameterised by (before `fuel`)
+        self.asserts = asserts  # contains `assert`: the monad is `PyU.PyA` (PyExc + AssertionError)
+
+
+def comp_targets(node) -> set:
+    """names bound by the `for` clauses of the comprehensions inside `node` (local to the comprehension)"""
+    out = set()
+    for n in ast.walk(node):
+        if isinstance(n, ast.comprehension):
+            out |= {m.id for m in ast.walk(n.target) if isinstance(m, ast.Name)}
+    return out
+
+
+class _SelfAttrs(ast.NodeTransformer):
+    """`__init__`: every `self.a` becomes the variable `self__a`"""
+
+    def __init__(self, self_name):
+        self.self_name = self_name
+        self.attrs = []
+
+    def visit_Attribute(self, n):
+        if isinstance(n.value, ast.Name) and n.value.id == self.self_name:
+            if n.attr not in self.attrs:
+                self.attrs.append(n.attr)
+            return ast.copy_location(ast.Name(id=f"self__{n.attr}", ctx=n.ctx), n)
+        return self.generic_visit(n)
 
 
 def _resolve(globs: dict, dotted: str):
@@ -137,15 +176,32 @@ class Unit:
     function of positional `V` arguments into `Py V`), `noop` (a call that is evaluated for its arguments only)."""
 
     def __init__(self, namespace: str, imports: list, registry: dict):
+        """further registry kinds: `ntcls` (a NamedTuple class; lean term : PyU.Cls; constructor calls with positional / keyword
+        arguments, `isinstance`), `cls` (a plain class translated by `translate(..., init_of=cls)`; only `isinstance`), `extern`
+        (an effect-free external function that becomes a parameter of the translated definitions: term = (lean name, number of
+        positional arguments, [keyword names])), `stream` (an external function whose results depend on how often it was called
+        before, e.g. `random.getrandbits`: term = (lean name, arity); the parameter gets the number of earlier calls first)"""
         self.namespace = namespace
         self.imports = imports
         self.registry = registry
+        self.int_tables = None     # Lean term of type PyU.IntTables (needed by `int(x)`)
         self.prelude: list[str] = []
         self.sigs: dict[str, Sig] = {}
         self.defs: list[str] = []
         self.names: list[str] = []
 
-    def translate(self, fn):
+    def extern_type(self, name: str) -> str:
+        for _, kind, term in self.registry.values():
+            if kind in ("extern", "stream") and term[0] == name:
+                n = term[1] + len(term[2]) if kind == "extern" else term[1] + 1
+                return " → ".join(["V"] * n + ["Py V"])
+        raise Unsupported(f"unknown extern {name}")
+
+    def translate(self, fn, lean_name=None, init_of=None):
+        """`fn`: a module-level function, or a method taken from the `__dict__` of its class (then `self` is an ordinary
+        parameter).  `init_of=(cls, lean term of its PyU.Cls descriptor)`: `fn` is `cls.__init__`; the translated definition is
+        the constructor call `cls(args)`: every `self.a` is a variable, the result is the instance with the attributes in the
+        order of their first assignment (`self` itself must not be used in any other way)."""
         src = textwrap.dedent(inspect.getsource(fn))
         mod = ast.parse(src)
         if len(mod.body) != 1 or not isinstance(mod.body[0], ast.FunctionDef):
@@ -162,28 +218,54 @@ class Unit:
             if d is not None and not isinstance(d, ast.Constant):
                 raise Unsupported(f"{fd.name}: non-literal default of {p.arg}")
             params.append((p.arg, None if d is None else const_term(d.value)))
-        tr = _Fn(self, fd, fn.__globals__, [p for p, _ in params])
+        init_attrs = None
+        if init_of is not None:
+            if not params or params[0][1] is not None:
+                raise Unsupported(f"{fd.name}: no `self` parameter")
+            rw = _SelfAttrs(params[0][0])
+            fd = ast.fix_missing_locations(rw.visit(fd))
+            if any(isinstance(n, ast.Name) and n.id == params[0][0] for n in ast.walk(fd)):
+                raise Unsupported(f"{fd.name}: `self` is used other than through its attributes")
+            if any(isinstance(n, ast.Return) for n in ast.walk(fd)):
+                raise Unsupported(f"{fd.name}: `return` in `__init__`")
+            params = params[1:]
+            init_attrs = rw.attrs
+        key = lean_name or fd.name
+        tr = _Fn(self, fd, fn.__globals__, [p for p, _ in params], init=(init_of[1], init_attrs) if init_of else None)
         body = tr.run()
-        sig = Sig(lname(fd.name), params, tr.needs_fuel)
-        self.sigs[fd.name] = sig
-        binders = (" (fuel : Nat)" if sig.fuel else "") + "".join(f" ({lname(p)} : V)" for p, _ in params)
+        sig = Sig(lname(key), params, tr.needs_fuel, tr.used_externs, tr.asserts)
+        self.sigs[key] = sig
+        self.init_fields = init_attrs
+        monad = "PyU.PyA" if sig.asserts else "Py"
+        xb = "".join(f" ({e} : {self.extern_type(e)})" for e in sig.externs)
+        xa = "".join(f" {e}" for e in sig.externs)
+
+        def fill(text):
+            text = text.replace("«XB»", xb).replace("«XA»", xa).replace("«M»", monad)
+            return re.sub(r"«T(.*?)»", (lambda m: f"(PyU.ExcA.py {m.group(1)})") if sig.asserts else (lambda m: m.group(1)), text)
+
+        binders = xb + (" (fuel : Nat)" if sig.fuel else "") + "".join(f" ({lname(p)} : V)" for p, _ in params)
         doc = f"/-- translated from `{fn.__module__}.{fn.__qualname__}`"
+        if init_of:
+            doc += f" (the constructor call: the new instance, attributes {', '.join(init_attrs)})"
         dflt = [f"{p}={d}" for p, d in params if d is not None]
         if dflt:
             doc += "; defaults: " + ", ".join(dflt)
+        if sig.externs:
+            doc += "; external functions: " + ", ".join(sig.externs)
         doc += " -/"
-        self.defs += tr.loop_defs
-        self.defs.append(f"{doc}\ndef {sig.name}{binders} : Py V := do\n" + "\n".join(body) + "\n")
+        self.defs += [fill(d) for d in tr.loop_defs]
+        self.defs.append(f"{doc}\ndef {sig.name}{binders} : {monad} V := do\n" + fill("\n".join(body)) + "\n")
         self.names += tr.loop_names + [sig.name]
         # the calls with 1, 2, … trailing arguments left to their defaults
         nd = len([1 for _, d in params if d is not None])
         for k in range(1, nd + 1):
             given, omitted = params[:len(params) - k], params[len(params) - k:]
-            b2 = (" (fuel : Nat)" if sig.fuel else "") + "".join(f" ({lname(p)} : V)" for p, _ in given)
-            args = ("fuel " if sig.fuel else "") + " ".join([lname(p) for p, _ in given] + [d for _, d in omitted])
+            b2 = xb + (" (fuel : Nat)" if sig.fuel else "") + "".join(f" ({lname(p)} : V)" for p, _ in given)
+            args = (xa.strip() + " " if xa else "") + ("fuel " if sig.fuel else "") + " ".join([lname(p) for p, _ in given] + [d for _, d in omitted])
             shown = ", ".join(f"{p}={d}" for p, d in omitted)
             self.defs.append(f"/-- `{fd.name}` called with the default{'s' if k > 1 else ''} {shown} -/\n"
-                             f"def {sig.name}_default{k}{b2} : Py V := {sig.name} {args}\n")
+                             f"def {sig.name}_default{k}{b2} : {monad} V := {sig.name} {args}\n")
             self.names.append(f"{sig.name}_default{k}")
         return sig
 
@@ -197,7 +279,12 @@ class Unit:
 
 
 class _Fn:
-    def __init__(self, unit: Unit, fd: ast.FunctionDef, globs: dict, params: list):
+    def __init__(self, unit: Unit, fd: ast.FunctionDef, globs: dict, params: list, init=None):
+        self.init = init                             # (Lean term of the class descriptor, attribute names) for `__init__`
+        self.used_externs: list[str] = []
+        self.asserts = False
+        self.uses_calls = False
+        self.comps = 0
         self.u = unit
         self.fd = fd
         self.globs = globs
@@ -222,42 +309,150 @@ class _Fn:
         fd = self.fd
         for n in ast.walk(fd):
             if n is not fd and isinstance(n, (ast.FunctionDef, ast.AsyncFunctionDef, ast.Lambda, ast.ClassDef, ast.ListComp, ast.SetComp,
-                                              ast.DictComp, ast.GeneratorExp, ast.Global, ast.Nonlocal, ast.NamedExpr, ast.Yield,
+                                              ast.GeneratorExp, ast.Global, ast.Nonlocal, ast.NamedExpr, ast.Yield,
                                               ast.YieldFrom, ast.Await, ast.Try, ast.With, ast.Delete, ast.Starred)):
                 raise self.bad(f"construct {type(n).__name__}")
-        self.assigned = {n.id for n in ast.walk(fd) if isinstance(n, ast.Name) and isinstance(n.ctx, ast.Store)}
-        self.local = self.assigned | set(self.params)
+        self.local = set()
+        self.assigned = {v for v in self.stores_in([fd]) if v != CALLS}
+        self.local = self.assigned | set(self.params) | comp_targets(fd)
+        self.asserts = any(isinstance(n, ast.Assert) for n in ast.walk(fd))
+        self.uses_calls = any(isinstance(n, ast.Call) and self.global_kind(n.func) == "stream" for n in ast.walk(fd))
         for v in self.local:
             if v in self.u.sigs or v in self.u.registry or any(k.split(".")[0] == v for k in self.u.registry):
                 raise self.bad(f"local name {v} shadows a translated / registered global")
         # mutable names: receivers of the mutating methods
         self.mutable = set()
         for n in ast.walk(fd):
+            recv = None
             if isinstance(n, ast.Call) and isinstance(n.func, ast.Attribute) and n.func.attr in MUTATORS:
-                if not isinstance(n.func.value, ast.Name) or n.func.value.id not in self.assigned or n.func.value.id in self.params:
-                    raise self.bad(f"`.{n.func.attr}` on something that is not a local variable bound to a fresh object")
-                self.mutable.add(n.func.value.id)
+                recv, what = n.func.value, f"`.{n.func.attr}`"
+            elif isinstance(n, ast.Subscript) and isinstance(n.ctx, ast.Store):
+                recv, what = n.value, "item assignment"
+            if recv is not None:
+                if not isinstance(recv, ast.Name) or recv.id not in self.assigned or recv.id in self.params:
+                    raise self.bad(f"{what} on something that is not a local variable bound to a fresh object")
+                self.mutable.add(recv.id)
         allowed = set()
+        self.borrows = {}      # mutable variable -> (owner variable, attribute, the assignment statement)
         for n in ast.walk(fd):
             if isinstance(n, ast.Call) and isinstance(n.func, ast.Attribute) and n.func.attr in MUTATORS:
                 allowed.add(id(n.func.value))
-            if isinstance(n, ast.Return) and isinstance(n.value, ast.Name):
+            if isinstance(n, ast.Subscript) and isinstance(n.ctx, ast.Store):
                 allowed.add(id(n.value))
+            if isinstance(n, ast.Return) and n.value is not None:
+                # the function ends here: references that the returned value holds cannot be observed by this function any more
+                allowed |= {id(m) for m in ast.walk(n.value) if isinstance(m, ast.Name)}
+            if isinstance(n, ast.Assign) and len(n.targets) == 1 and self.is_permutation(n.targets[0], n.value):
+                allowed |= {id(m) for m in n.targets[0].elts + n.value.elts}
             if isinstance(n, (ast.Assign, ast.AnnAssign)):
                 targets = n.targets if isinstance(n, ast.Assign) else [n.target]
                 for t in targets:
                     if isinstance(t, ast.Name) and t.id in self.mutable:
-                        if n.value is None or not self.is_fresh(n.value):
+                        if n.value is not None and self.is_fresh(n.value):
+                            allowed.add(id(t))
+                        elif (n.value is not None and isinstance(n.value, ast.Attribute) and isinstance(n.value.value, ast.Name)
+                              and n.value.value.id in self.local and n.value.value.id not in self.mutable and t.id not in self.borrows):
+                            self.borrows[t.id] = (n.value.value.id, n.value.attr, n)
+                            allowed.add(id(t))
+                        else:
                             raise self.bad(f"mutable variable {t.id} is bound to something that is not a fresh object")
-                        allowed.add(id(t))
+        allowed |= self.check_borrows()
         for n in ast.walk(fd):
             if isinstance(n, ast.Name) and n.id in self.mutable and id(n) not in allowed:
                 raise self.bad(f"mutable variable {n.id} is used where a second reference to the object could be created")
 
+    def check_borrows(self) -> set:
+        """`m = r.a` for a mutable variable `m` (`r` a parameter or an immutable local): `m` is a *borrowed* part of `r`.  Threading
+        `m` as a value gives the exact return value provided the stale field `r.a` can never be read again: `m` has no other
+        assignment, the binding is a top-level statement, and afterwards `r` is not assigned and occurs only as `r.b` (`b` not a
+        borrowed attribute) or as the receiver of `r._replace(…)` with `a=m` for every borrowed attribute.  (Assumed, not
+        checked: the borrowed parts of the argument are pairwise different objects that no other argument refers to.  The
+        in-place change of the caller's object is not part of the translated result.)"""
+        ok = set()
+        for m, (r, a, stmt) in self.borrows.items():
+            n_assign = sum(1 for n in ast.walk(self.fd) if isinstance(n, ast.Name) and n.id == m and isinstance(n.ctx, ast.Store))
+            if n_assign != 1 or stmt not in self.fd.body:
+                raise self.bad(f"borrowed mutable variable {m} must be bound exactly once, by a top-level statement")
+        owners = {r for r, _, _ in self.borrows.values()}
+        for r in owners:
+            mine = {a: m for m, (r2, a, _) in self.borrows.items() if r2 == r}
+            first = min(self.fd.body.index(st) for m, (r2, _, st) in self.borrows.items() if r2 == r)
+            for st in self.fd.body[first:]:
+                parents = {}
+                for n in ast.walk(st):
+                    for c in ast.iter_child_nodes(n):
+                        parents[id(c)] = n
+                for n in ast.walk(st):
+                    if not (isinstance(n, ast.Name) and n.id == r):
+                        continue
+                    par = parents.get(id(n))
+                    if isinstance(n.ctx, ast.Store):
+                        raise self.bad(f"{r} is assigned after a part of it was borrowed")
+                    if not (isinstance(par, ast.Attribute) and par.value is n):
+                        raise self.bad(f"{r} is used as a whole after a part of it was borrowed")
+                    gp = parents.get(id(par))
+                    if par.attr == "_replace" and isinstance(gp, ast.Call) and gp.func is par:
+                        kws = {k.arg: k.value for k in gp.keywords}
+                        for a, m in mine.items():
+                            if not (isinstance(kws.get(a), ast.Name) and kws[a].id == m):
+                                raise self.bad(f"{r}._replace(…) does not put the borrowed {m} back as {a}")
+                            ok.add(id(kws[a]))
+                    elif par.attr in mine:
+                        owner_stmt = self.borrows[mine[par.attr]][2]
+                        if st is not owner_stmt:
+                            raise self.bad(f"{r}.{par.attr} is read again after it was borrowed by {mine[par.attr]}")
+                    elif par.attr.startswith("_"):
+                        raise self.bad(f"{r}.{par.attr} after a part of {r} was borrowed")
+        return ok
+
+    def is_permutation(self, target, value) -> bool:
+        """`a, b = b, a`: both sides tuples of the same variables, each once"""
+        if not (isinstance(target, ast.Tuple) and isinstance(value, ast.Tuple) and len(target.elts) == len(value.elts) >= 2):
+            return False
+        if not all(isinstance(e, ast.Name) for e in target.elts + value.elts):
+            return False
+        lhs, rhs = [e.id for e in target.elts], [e.id for e in value.elts]
+        return len(set(lhs)) == len(lhs) and sorted(lhs) == sorted(rhs) and all(v in self.local for v in lhs)
+
+    def stores_in(self, nodes) -> set:
+        """the variables a piece of code may change: assigned names (not the targets of comprehensions, which are local to them),
+        receivers of mutating methods / item assignments, and the hidden call counter of `stream` functions"""
+        out = set()
+
+        def visit(n):
+            if isinstance(n, ast.comprehension):
+                visit(n.iter)
+                for c in n.ifs:
+                    visit(c)
+                return
+            if isinstance(n, ast.Name) and isinstance(n.ctx, ast.Store):
+                out.add(n.id)
+            if isinstance(n, ast.Call) and isinstance(n.func, ast.Attribute) and n.func.attr in MUTATORS and isinstance(n.func.value, ast.Name):
+                out.add(n.func.value.id)
+            if isinstance(n, ast.Subscript) and isinstance(n.ctx, ast.Store) and isinstance(n.value, ast.Name):
+                out.add(n.value.id)
+            if isinstance(n, ast.Call) and self.local and self.global_kind(n.func) == "stream":
+                out.add(CALLS)
+            for c in ast.iter_child_nodes(n):
+                visit(c)
+
+        for n in nodes:
+            visit(n)
+        return out
+
     def is_fresh(self, v) -> bool:
-        if isinstance(v, ast.List):
+        """an expression whose value is a new object nothing else refers to"""
+        if isinstance(v, (ast.List, ast.Dict, ast.DictComp)):
+            return True
+        if isinstance(v, ast.Subscript) and isinstance(v.slice, ast.Slice):
+            return True        # a slice of a list is a copy
+        if isinstance(v, ast.Call) and self.is_builtin(v.func, "list") and not v.keywords:
             return True
         return isinstance(v, ast.Call) and self.global_kind(v.func) == "bytesio"
+
+    def use_extern(self, name):
+        if name not in self.used_externs:
+            self.used_externs.append(name)
 
     def dotted(self, n):
         parts = []
@@ -296,9 +491,18 @@ class _Fn:
                     raise self.bad(f"variable {n.id} may be used before it is assigned on this path")
                 return [], lname(n.id)
             raise self.bad(f"free name {n.id}")
-        if isinstance(n, (ast.Compare, ast.BoolOp)) or isinstance(n, ast.UnaryOp) and isinstance(n.op, ast.Not):
-            if isinstance(n, ast.BoolOp):
-                raise self.bad("`and` / `or` outside a condition (the value is an operand, not a bool)")
+        if isinstance(n, ast.BoolOp):
+            # value position: `a or b` is `a` when `a` is true, else `b` (evaluated only then); `and` dually
+            is_or = isinstance(n.op, ast.Or)
+            pre, cur = self.expr(n.values[0], ind)
+            r = self.fresh()
+            pre = pre + [f"{P}let mut {r} := {cur}"]
+            for v in n.values[1:]:
+                pv, tv = self.expr(v, ind + 2)
+                pre.append(f"{P}if ({'!' if is_or else ''}(PyU.truthy {r})) then")
+                pre += pv + [f"{P}  {r} := {tv}"]
+            return pre, r
+        if isinstance(n, ast.Compare) or isinstance(n, ast.UnaryOp) and isinstance(n.op, ast.Not):
             p, c = self.cond(n, ind)
             return p, f"(V.bool {c})"
         if isinstance(n, ast.BinOp):
@@ -340,7 +544,12 @@ class _Fn:
             t = self.fresh()
             if isinstance(n.slice, ast.Slice):
                 if n.slice.step is not None:
-                    raise self.bad("slice with a step")
+                    st_ = n.slice.step
+                    minus1 = (isinstance(st_, ast.UnaryOp) and isinstance(st_.op, ast.USub) and isinstance(st_.operand, ast.Constant)
+                              and st_.operand.value == 1 and type(st_.operand.value) is int)
+                    if not minus1 or n.slice.lower is not None or n.slice.upper is not None:
+                        raise self.bad("slice with a step (other than `[::-1]`)")
+                    return pa + [f"{P}let {t} ← PyU.sliceRev {a}"], t
                 pl, lo = self.expr(n.slice.lower, ind) if n.slice.lower is not None else ([], "V.none")
                 ph, hi = self.expr(n.slice.upper, ind) if n.slice.upper is not None else ([], "V.none")
                 return pa + pl + ph + [f"{P}let {t} ← PyU.slice {a} {lo} {hi}"], t
@@ -354,14 +563,68 @@ class _Fn:
                     raise self.bad(f"{ast.unparse(n)} is not a member of the enum")
                 t = self.fresh()
                 return [f"{P}let {t} ← PyU.enumMember {self.global_entry(n.value)[1]} {lean_string(n.attr)}"], t
-            if n.attr in ("name", "value") and self.dotted(n) is None:
+            if not n.attr.startswith("_") and self.dotted(n) is None:
                 po, o = self.expr(n.value, ind)
                 t = self.fresh()
                 return po + [f"{P}let {t} ← PyU.getAttr {o} {lean_string(n.attr)}"], t
             raise self.bad(f"attribute {ast.unparse(n)[:60]}")
         if isinstance(n, ast.Call):
             return self.call(n, ind)
+        if isinstance(n, ast.DictComp):
+            return self.dictcomp(n, ind)
         raise self.bad(f"expression {type(n).__name__}: {ast.unparse(n)[:60]}")
+
+    def bind_target(self, target, term, ind) -> list:
+        """`target = term` for a name or a tuple of two / three names (loop targets)"""
+        P = " " * ind
+        if isinstance(target, ast.Name):
+            return [self.bind(target.id, term, ind)]
+        if isinstance(target, ast.Tuple) and len(target.elts) in (2, 3) and all(isinstance(e, ast.Name) for e in target.elts):
+            r = self.fresh()
+            k = len(target.elts)
+            out = [f"{P}let {r} ← PyU.unpack{k} {term}"]
+            for i, e in enumerate(target.elts):
+                out.append(self.bind(e.id, r + ".2" * i + (".1" if i < k - 1 else ""), ind))
+            return out
+        raise self.bad(f"assignment target {ast.unparse(target)[:40]}")
+
+    def dictcomp(self, n: ast.DictComp, ind):
+        """`{k: v for x in it if c}`: a definition of its own that adds one item to the dict (the targets are local to it), run
+        by `PyU.forList` over the items of `it` (evaluated in the enclosing scope)"""
+        P = " " * ind
+        if len(n.generators) != 1 or n.generators[0].is_async:
+            raise self.bad("comprehension with several `for` clauses")
+        g = n.generators[0]
+        pi, it = self.expr(g.iter, ind)
+        items = self.fresh()
+        self.comps += 1
+        name = f"{lname(self.fd.name)}_comp{self.comps}"
+        targets = {m.id for m in ast.walk(g.target) if isinstance(m, ast.Name)}
+        inner = [n.key, n.value] + list(g.ifs)
+        used = {m.id for e in inner for m in ast.walk(e) if isinstance(m, ast.Name)}
+        if self.stores_in(inner):
+            raise self.bad("a comprehension that changes a variable")
+        captured = [v for v in self.declared if v in used and v not in targets]
+        saved = (list(self.declared), self.in_loop)
+        self.declared = list(captured)
+        self.in_loop = None
+        item = self.fresh()
+        lines = self.bind_target(g.target, item, 2)
+        for c in g.ifs:
+            pc, tc = self.cond(c, 2)
+            lines += pc + [f"  if (!{tc}) then", "    return (PyU.Ctl.cont, st)"]
+        pk, k = self.expr(n.key, 2)
+        pv, v = self.expr(n.value, 2)
+        r = self.fresh()
+        lines += pk + pv + [f"  let {r} ← PyU.setItem st {k} {v}", f"  return (PyU.Ctl.cont, {r})"]
+        self.declared, self.in_loop = saved
+        binders = "".join(f" ({lname(v)} : V)" for v in captured) + f" ({item} : V) (st : V)"
+        self.loop_defs.append(f"/-- one item of comprehension {self.comps} of `{self.fd.name}`; state: the dict built so far -/\n"
+                              f"def {name}«XB»{binders} : «M» (PyU.Ctl × V) := do\n" + "\n".join(lines) + "\n")
+        self.loop_names.append(name)
+        t = self.fresh()
+        args = "".join(f" {lname(v)}" for v in captured)
+        return pi + [f"{P}let {items} ← PyU.iterList {it}", f"{P}let {t} ← PyU.forList {items} ({name}«XA»{args}) (V.dict [] [])"], t
 
     def exprs(self, items, ind):
         pre, terms = [], []
@@ -382,20 +645,60 @@ class _Fn:
                     terms.append(f"PyU.cps {lean_string(part)}")
             else:
                 node, spec = part
-                if spec not in ("", "x"):
+                if spec not in ("", "x", "!r"):
                     raise self.bad(f"format spec {spec!r}")
                 p, v = self.expr(node, ind)
                 t = self.fresh()
                 pre += p
-                (fmts if args_first else pre).append(f"{P}let {t} ← PyU.fmt {v} {lean_string(spec)}")
+                if spec == "!r":
+                    op = f"PyU.fmtR {v}"
+                elif spec == "" and isinstance(node, (ast.Tuple, ast.List)):
+                    op = f"PyU.fmtS {v}"        # `str()` of a tuple / list display is its `repr`
+                else:
+                    op = f"PyU.fmt {v} {lean_string(spec)}"
+                (fmts if args_first else pre).append(f"{P}let {t} ← {op}")
                 terms.append(t)
         return pre + fmts, "(V.str (" + (" ++ ".join(terms) if terms else "[]") + "))"
+
+    def type_refs(self, n) -> list:
+        """the second argument of `isinstance`"""
+        if isinstance(n, ast.Tuple):
+            return [t for e in n.elts for t in self.type_refs(e)]
+        if isinstance(n, ast.Name) and n.id in ISINSTANCE and self.is_builtin(n, n.id):
+            return [ISINSTANCE[n.id]]
+        e = self.global_entry(n)
+        if e is not None and e[0] in ("ntcls", "cls"):
+            return [f"(PyU.Ty.cls {e[1]})"]
+        raise self.bad(f"isinstance with the class {ast.unparse(n)[:40]}")
+
+    def construct(self, n: ast.Call, term, cls, ind):
+        """`Cls(a, b, f=c)` for a registered NamedTuple class: the fields in declaration order, defaults filled in"""
+        fields = list(cls._fields)
+        defaults = dict(cls._field_defaults)
+        if len(n.args) > len(fields):
+            raise self.bad(f"too many arguments for {cls.__name__}")
+        pre, args = self.exprs(n.args, ind)
+        vals = dict(zip(fields, args))
+        for k in n.keywords:
+            if k.arg not in fields or k.arg in vals:
+                raise self.bad(f"{cls.__name__}: unexpected / repeated field {k.arg}")
+            p, t = self.expr(k.value, ind)
+            pre += p
+            vals[k.arg] = t
+        for f in fields:
+            if f not in vals:
+                if f not in defaults:
+                    raise self.bad(f"{cls.__name__}: missing field {f}")
+                vals[f] = const_term(defaults[f])
+        return pre, f"(V.inst {term} [{', '.join(vals[f] for f in fields)}])"
 
     def fstring(self, n: ast.JoinedStr, ind):
         parts = []
         for v in n.values:
             if isinstance(v, ast.Constant) and isinstance(v.value, str):
                 parts.append(v.value)
+            elif isinstance(v, ast.FormattedValue) and v.conversion == ord("r") and v.format_spec is None:
+                parts.append((v.value, "!r"))
             elif isinstance(v, ast.FormattedValue) and v.conversion == -1:
                 spec = ""
                 if v.format_spec is not None:
@@ -405,20 +708,58 @@ class _Fn:
                     spec = "".join(x.value for x in fs)
                 parts.append((v.value, spec))
             else:
-                raise self.bad("f-string conversion (!r / !s / !a)")
+                raise self.bad("f-string conversion (!s / !a, or !r with a format spec)")
         return self.pieces(parts, ind, False)
 
     def call(self, n: ast.Call, ind):
         P = " " * ind
         f = n.func
+        if any(k.arg is None for k in n.keywords):
+            raise self.bad(f"**kwargs in {ast.unparse(n)[:60]}")
+        entry = self.global_entry(f)
+        if entry is not None and entry[0] == "ntcls":
+            return self.construct(n, entry[1], self.u.registry[self.dotted(f)][0], ind)
+        if entry is not None and entry[0] == "extern":
+            name, npos, kwnames = entry[1]
+            if len(n.args) != npos or sorted(k.arg for k in n.keywords) != sorted(kwnames):
+                raise self.bad(f"{ast.unparse(f)} is registered with {npos} positional arguments and the keywords {kwnames}")
+            pre, args = self.exprs(n.args, ind)
+            kwv = {}
+            for k in n.keywords:
+                pk, tk = self.expr(k.value, ind)
+                pre += pk
+                kwv[k.arg] = tk
+            self.use_extern(name)
+            t = self.fresh()
+            return pre + [f"{P}let {t} ← {name} {' '.join(args + [kwv[x] for x in kwnames])}"], t
+        if isinstance(f, ast.Attribute) and f.attr == "_replace" and not n.args and self.dotted(f) is None:
+            po, o = self.expr(f.value, ind)
+            items = []
+            for k in n.keywords:
+                pk, tk = self.expr(k.value, ind)
+                po += pk
+                items.append(f"({lean_string(k.arg)}, {tk})")
+            t = self.fresh()
+            return po + [f"{P}let {t} ← PyU.replace {o} [{', '.join(items)}]"], t
+        if isinstance(f, ast.Attribute) and f.attr in ("decode", "encode") and self.dotted(f) is None:
+            return self.codec(n, ind)
         if n.keywords:
             raise self.bad(f"keyword arguments in {ast.unparse(n)[:60]}")
         if isinstance(f, ast.Attribute) and f.attr == "read" and isinstance(f.value, ast.Name) and f.value.id in self.mutable:
             return self.expr_read(n, ind)
-        entry = self.global_entry(f)
+        if self.is_builtin(f, "isinstance"):
+            p, c = self.cond(n, ind)
+            return p, f"(V.bool {c})"
         if entry is not None:
             kind, term = entry
             pre, args = self.exprs(n.args, ind)
+            if kind == "stream":
+                name, arity = term
+                if len(args) != arity or CALLS not in self.declared:
+                    raise self.bad(f"{ast.unparse(f)} called with {len(args)} arguments (registered with {arity})")
+                self.use_extern(name)
+                t = self.fresh()
+                return pre + [f"{P}let {t} ← {name} t0 {' '.join(args)}", f"{P}t0 := PyU.next t0"], t
             if kind == "noop":
                 return pre, "V.none"
             t = self.fresh()
@@ -440,6 +781,16 @@ class _Fn:
             pa, a = self.expr(n.args[0], ind)
             t = self.fresh()
             return pa + [f"{P}let {t} ← PyU.len {a}"], t
+        if self.is_builtin(f, "list") and len(n.args) == 1:
+            pa, a = self.expr(n.args[0], ind)
+            t = self.fresh()
+            return pa + [f"{P}let {t} ← PyU.listOf {a}"], t
+        if self.is_builtin(f, "int") and len(n.args) == 1:
+            if self.u.int_tables is None:
+                raise self.bad("`int(x)`: the plug-in did not provide the Unicode tables")
+            pa, a = self.expr(n.args[0], ind)
+            t = self.fresh()
+            return pa + [f"{P}let {t} ← PyU.intOf {self.u.int_tables} {a}"], t
         if isinstance(f, ast.Name) and f.id in self.u.sigs and f.id not in self.local:
             sg = self.u.sigs[f.id]
             if len(n.args) > len(sg.params):
@@ -452,6 +803,13 @@ class _Fn:
             if sg.fuel:
                 self.needs_fuel = True
                 args.insert(0, "fuel")
+            if sg.asserts and not self.asserts:
+                raise self.bad(f"{f.id} can raise AssertionError; the caller must contain an `assert` itself (monad PyU.PyA)")
+            if any(self.u.registry[k][1] == "stream" and self.u.registry[k][2][0] in sg.externs for k in self.u.registry):
+                raise self.bad(f"{f.id} uses a `stream` function; only the outermost function may")
+            for e in sg.externs:
+                self.use_extern(e)
+            args = list(sg.externs) + args
             t = self.fresh()
             return pre + [f"{P}let {t} ← {sg.name} {' '.join(args)}"], t
         if isinstance(f, ast.Attribute):
@@ -471,19 +829,6 @@ class _Fn:
                 if k != len(n.args):
                     raise self.bad("str.format with unused arguments")
                 return self.pieces(parts, ind, True)
-            if m == "decode":
-                lits = [a.value if isinstance(a, ast.Constant) and isinstance(a.value, str) else None for a in n.args]
-                if None in lits or len(lits) > 2:
-                    raise self.bad("decode with non-literal arguments")
-                enc = (lits[0] if lits else "utf-8").lower().replace("_", "-")
-                errors = lits[1] if len(lits) > 1 else "strict"
-                po, o = self.expr(f.value, ind)
-                t = self.fresh()
-                if enc in ("utf-8", "utf8") and errors == "strict":
-                    return po + [f"{P}let {t} ← PyU.decodeUtf8 {o}"], t
-                if enc in ("latin-1", "latin1", "iso-8859-1") and errors in ("strict", "ignore", "replace"):
-                    return po + [f"{P}let {t} ← PyU.decodeLatin1 {o}"], t
-                raise self.bad(f"decode({', '.join(map(repr, lits))})")
             if m in METHODS:
                 fn_, lo, hi, dflt = METHODS[m]
                 if not lo <= len(n.args) <= hi:
@@ -492,8 +837,28 @@ class _Fn:
                 pre, args = self.exprs(n.args, ind)
                 args += dflt[len(args):]
                 t = self.fresh()
-                return po + pre + [f"{P}let {t} ← {fn_} {o} {' '.join(args)}"], t
+                return po + pre + [f"{P}let {t} ← " + " ".join([fn_, o] + args)], t
         raise self.bad(f"call {ast.unparse(n)[:70]}")
+
+    def codec(self, n: ast.Call, ind):
+        """`x.decode(encoding, errors)` / `x.encode(encoding, errors)` with literal arguments (positional or keyword)"""
+        P = " " * ind
+        m = n.func.attr
+        lits = {}
+        for name, a in list(zip(["encoding", "errors"], n.args)) + [(k.arg, k.value) for k in n.keywords]:
+            if name in lits or name not in ("encoding", "errors") or not (isinstance(a, ast.Constant) and isinstance(a.value, str)):
+                raise self.bad(f"{m} with non-literal / unknown arguments")
+            lits[name] = a.value
+        if len(n.args) > 2:
+            raise self.bad(f"{m} with more than two arguments")
+        enc = CODECS.get(lits.get("encoding", "utf-8").lower().replace("_", "-"))
+        key = (enc, lits.get("errors", "strict"))
+        table = DECODE if m == "decode" else ENCODE
+        if key not in table:
+            raise self.bad(f"{m}({', '.join(f'{k}={v!r}' for k, v in lits.items())})")
+        po, o = self.expr(n.func.value, ind)
+        t = self.fresh()
+        return po + [f"{P}let {t} ← {table[key]} {o}"], t
 
     # ---- conditions: (prelude lines, term of type Bool) ----------------------------------------------------------------
     def cond(self, n, ind) -> tuple[list, str]:
@@ -537,6 +902,9 @@ class _Fn:
             return pre, cur
         if isinstance(n, ast.Constant) and isinstance(n.value, bool):
             return [], "true" if n.value else "false"
+        if isinstance(n, ast.Call) and self.is_builtin(n.func, "isinstance") and len(n.args) == 2 and not n.keywords:
+            pa, a = self.expr(n.args[0], ind)
+            return pa, f"(PyU.isInstance {a} [{', '.join(self.type_refs(n.args[1]))}])"
         p, t = self.expr(n, ind)
         return p, f"(PyU.truthy {t})"
 
@@ -581,8 +949,13 @@ class _Fn:
                         raise self.bad("keyword arguments of an exception")
                     p, _ = self.exprs(exc.args, ind)
                     out += p
-                out.append(f"{P}throw {EXC[name]}")
+                out.append(f"{P}throw «T{EXC[name]}»")
                 term = True
+            elif isinstance(st, ast.Assert):
+                if st.msg is not None and not isinstance(st.msg, ast.Constant):
+                    raise self.bad("assert with a computed message")
+                p, c = self.cond(st.test, ind)
+                out += p + [f"{P}if (!{c}) then", f"{P}  throw PyU.ExcA.assertion"]
             elif isinstance(st, ast.Break) or isinstance(st, ast.Continue):
                 if self.in_loop is None:
                     raise self.bad("break / continue outside a loop")
@@ -600,6 +973,22 @@ class _Fn:
                 if isinstance(target, ast.Name):
                     p, t = self.expr(st.value, ind)
                     out += p + [self.bind(target.id, t, ind)]
+                elif self.is_permutation(target, st.value):
+                    for e in st.value.elts:
+                        if e.id not in self.declared:
+                            raise self.bad(f"variable {e.id} may be used before it is assigned on this path")
+                    tmps = [self.fresh() for _ in st.value.elts]
+                    out += [f"{P}let {t} := {lname(e.id)}" for t, e in zip(tmps, st.value.elts)]
+                    out += [self.bind(e.id, t, ind) for t, e in zip(tmps, target.elts)]
+                elif isinstance(target, ast.Subscript) and isinstance(target.value, ast.Name) and target.value.id in self.mutable \
+                        and not isinstance(target.slice, ast.Slice):
+                    v = target.value.id
+                    if v not in self.declared:
+                        raise self.bad(f"variable {v} may be used before it is assigned on this path")
+                    p, t = self.expr(st.value, ind)        # CPython: the value first, then the container and the key
+                    pk, k = self.expr(target.slice, ind)
+                    r = self.fresh()
+                    out += p + pk + [f"{P}let {r} ← PyU.setItem {lname(v)} {k} {t}", f"{P}{lname(v)} := {r}"]
                 elif isinstance(target, ast.Tuple) and len(target.elts) in (2, 3) and all(isinstance(e, ast.Name) for e in target.elts):
                     p, t = self.expr(st.value, ind)
                     r = self.fresh()
@@ -635,7 +1024,7 @@ class _Fn:
                     out.append(f"{P}else")
                     out += orelse or [f"{P}  pure ()"]
                 term = tb and te
-            elif isinstance(st, ast.While):
+            elif isinstance(st, (ast.While, ast.For)):
                 out += self.loop(st, ind)
             else:
                 raise self.bad(f"statement {type(st).__name__}: {ast.unparse(st)[:60]}")
@@ -656,6 +1045,15 @@ class _Fn:
             p, t = self.expr(c.args[0], ind)
             r = self.fresh()
             return p + [f"{P}let {r} ← PyU.append {lname(v)} {t}", f"{P}{lname(v)} := {r}"]
+        if isinstance(f, ast.Attribute) and f.attr == "insert" and isinstance(f.value, ast.Name) and f.value.id in self.mutable:
+            if len(c.args) != 2 or c.keywords:
+                raise self.bad("insert with other than two arguments")
+            v = f.value.id
+            if v not in self.declared:
+                raise self.bad(f"variable {v} may be used before it is assigned on this path")
+            p, ts = self.exprs(c.args, ind)
+            r = self.fresh()
+            return p + [f"{P}let {r} ← PyU.insert {lname(v)} {ts[0]} {ts[1]}", f"{P}{lname(v)} := {r}"]
         p, t = self.expr(c, ind)
         return p       # the call is bound in the prelude; its value is discarded
 
@@ -671,29 +1069,48 @@ class _Fn:
         r = self.fresh()
         return pre + [f"{P}let {r} ← PyU.read {lname(v)} {args[0] if args else 'V.none'}", f"{P}{lname(v)} := {r}.2"], f"{r}.1"
 
-    def loop(self, st: ast.While, ind) -> list:
+    def loop(self, st, ind) -> list:
+        """`while`: run by `PyU.whileFuel`; `for x in e`: the items of `e` (a snapshot taken before the loop: the body must not
+        change the object it iterates over) run by `PyU.forList`"""
         P = " " * ind
+        is_for = isinstance(st, ast.For)
         if st.orelse:
-            raise self.bad("while … else")
+            raise self.bad("loop … else")
+        if not is_for and self.asserts:
+            raise self.bad("`while` in a function with `assert`")
+        pre = []
+        if is_for:
+            if isinstance(st.iter, ast.Name) and st.iter.id in self.mutable:
+                raise self.bad("iteration over a mutable variable")
+            it_text = ast.unparse(st.iter)
+            for n in ast.walk(st):
+                if isinstance(n, ast.Call) and isinstance(n.func, ast.Attribute) and n.func.attr in MUTATORS and ast.unparse(n.func.value) == it_text:
+                    raise self.bad("the loop changes the object it iterates over")
+            pi, it = self.expr(st.iter, ind)
+            items = self.fresh()
+            pre = pi + [f"{P}let {items} ← PyU.iterList {it}"]
         self.loops += 1
-        self.needs_fuel = True
+        if not is_for:
+            self.needs_fuel = True
         name = f"{lname(self.fd.name)}_loop{self.loops}"
-        stored = set()
-        for n in ast.walk(st):
-            if isinstance(n, ast.Name) and isinstance(n.ctx, ast.Store):
-                stored.add(n.id)
-            if isinstance(n, ast.Call) and isinstance(n.func, ast.Attribute) and n.func.attr in MUTATORS and isinstance(n.func.value, ast.Name):
-                stored.add(n.func.value.id)
-        used = {n.id for n in ast.walk(st) if isinstance(n, ast.Name)}
+        inside = [st] if not is_for else [st.target] + st.body
+        stored = self.stores_in(inside)
+        used = {n.id for m in inside for n in ast.walk(m) if isinstance(n, ast.Name)} | ({CALLS} if CALLS in stored else set())
         state = [v for v in self.declared if v in stored]
         captured = [v for v in self.declared if v in used and v not in stored]
         inner_has_loop = any(isinstance(n, ast.While) for s in st.body for n in ast.walk(s))
+        if is_for:
+            inner_has_loop = inner_has_loop or any(isinstance(n, ast.Call) and isinstance(n.func, ast.Name) and n.func.id in self.u.sigs
+                                                   and self.u.sigs[n.func.id].fuel for s in st.body for n in ast.walk(s))
         # the body, as a definition of its own
         saved = (list(self.declared), self.in_loop, self.tmp)
         self.declared = list(captured) + list(state)
         self.in_loop = state
         lines = [f"  let mut {lname(v)} := {proj(k, len(state))}" for k, v in enumerate(state)]
-        if not (isinstance(st.test, ast.Constant) and st.test.value is True):
+        if is_for:
+            item = self.fresh()
+            lines += self.bind_target(st.target, item, 2)
+        elif not (isinstance(st.test, ast.Constant) and st.test.value is True):
             p, c = self.cond(st.test, 2)
             lines += p + [f"  if (!{c}) then", self.exit_loop("brk", 4)]
         body, term = self.block(st.body, 2)
@@ -702,13 +1119,18 @@ class _Fn:
             lines.append(self.exit_loop("cont", 2))
         self.declared, self.in_loop, _ = saved
         sigma = tuple_type(len(state))
-        binders = (" (fuel : Nat)" if inner_has_loop else "") + "".join(f" ({lname(v)} : V)" for v in captured) + f" (st : {sigma})"
-        self.loop_defs.append(f"/-- body of loop {self.loops} of `{self.fd.name}`; state: ({', '.join(state)}) -/\n"
-                              f"def {name}{binders} : Py (PyU.Ctl × ({sigma})) := do\n" + "\n".join(lines) + "\n")
+        binders = (" (fuel : Nat)" if inner_has_loop else "") + "".join(f" ({lname(v)} : V)" for v in captured) \
+            + (f" ({item} : V)" if is_for else "") + f" (st : {sigma})"
+        what = f"`for {ast.unparse(st.target)} in …`, " if is_for else ""
+        self.loop_defs.append(f"/-- body of loop {self.loops} of `{self.fd.name}`; {what}state: ({', '.join(lname(v) for v in state) if is_for else ', '.join(state)}) -/\n"
+                              f"def {name}«XB»{binders} : «M» (PyU.Ctl × ({sigma})) := do\n" + "\n".join(lines) + "\n")
         self.loop_names.append(name)
         r = self.fresh()
         args = (" fuel" if inner_has_loop else "") + "".join(f" {lname(v)}" for v in captured)
-        out = [f"{P}let {r} ← PyU.whileFuel fuel ({name}{args}) {tuple_term([lname(v) for v in state])}"]
+        if is_for:
+            out = pre + [f"{P}let {r} ← PyU.forList {items} ({name}«XA»{args}) {tuple_term([lname(v) for v in state])}"]
+        else:
+            out = [f"{P}let {r} ← PyU.whileFuel fuel ({name}«XA»{args}) {tuple_term([lname(v) for v in state])}"]
         for k, v in enumerate(state):
             out.append(f"{P}{lname(v)} := {r if len(state) == 1 else '(' + proj(k, len(state)).replace('st', r, 1) + ')'}")
         return out
@@ -716,7 +1138,18 @@ class _Fn:
     def run(self):
         self.analyse()
         head = [f"  let mut {lname(p)} := {lname(p)}" for p in self.params if p in self.assigned]
+        if self.uses_calls:
+            head.append("  let mut t0 := (V.int 0)")
+            self.declared.append(CALLS)
         body, term = self.block(self.fd.body, 2)
-        if not term:
+        if self.init is not None:
+            cls_term, attrs = self.init
+            if term:
+                raise self.bad("`__init__` always raises")
+            missing = [a for a in attrs if f"self__{a}" not in self.declared]
+            if missing:
+                raise self.bad(f"attributes {missing} are not assigned on every path (at the top level of `__init__`)")
+            body.append(f"  return (V.inst {cls_term} [{', '.join(lname('self__' + a) for a in attrs)}])")
+        elif not term:
             raise self.bad("a path reaches the end of the function without return")
         return head + body
